@@ -93,7 +93,10 @@ def run(ck: Check) -> int:
         accepts only paths with exactly K non-empty pieces — nothing but a written separator matches `/`."""
         classes = ['alnum', 'alpha', 'ascii', 'blank', 'cntrl', 'digit', 'graph', 'lower', 'print', 'punct', 'space', 'upper', 'word', 'xdigit']
         atoms = ['a', 'b', '?', '*', '[ab]', '[!a]', '[!-0]', '[+-0]', '[ -~]', '[\\/]', 'a[!b]', '@(a|b)', '+(a|?)', '@(a|[!a])', '!(a)', '*(a)b', '?(a)b',
-                 '@(a[!a]b)', '\\a'] + [f'[[:{c}:]]' for c in classes] + [f'a[[:{c}:]]b' for c in classes] + [f'[![:{c}:]]' for c in classes[:4]] + \
+                 '@(a[!a]b)', '\\a',
+                 # groups whose list begins with a written dot (the `match_dot_dir` branch of parse_extend; added after seeded change C02g: the
+                 # need-one-character guard of `!(.x)` was lost under DOTGLOB, so `a/!(.x)/c` accepted `a//c`)
+                 '!(.a)', '!(.a|b)', '!(.)', '!(..|.a)', '@(.a|b)', '!(.a)b', '*(.a|b)b'] + [f'[[:{c}:]]' for c in classes] + [f'a[[:{c}:]]b' for c in classes] + [f'[![:{c}:]]' for c in classes[:4]] + \
                 [f'@([[:{c}:]])' for c in ('punct', 'graph', 'print', 'ascii')] + [f'a@(x|[[:{c}:]])b' for c in ('punct', 'graph')]
         paths2 = [''.join(t) for L in range(1, 6) for t in __import__('itertools').product('ab/', repeat=L)]
         paths2 = [q for q in paths2 if not q.startswith('/')]
@@ -103,7 +106,7 @@ def run(ck: Check) -> int:
                 [tuple(R.choice(atoms) for _ in range(K)) for _ in range(400 if quick and not ck.deep() else 6000)]
             for segs in combos:
                 p = '/'.join(segs)
-                for fl in (G.U | G.E, G.U | G.E | G.D | G.G, G.U | G.E | G.I):
+                for fl in (G.U | G.E, G.U | G.E | G.D | G.G, G.U | G.E | G.I, G.U | G.E | G.D):
                     sr.distinct += 1
                     try:
                         with common.time_limit(5):
